@@ -31,7 +31,7 @@ Definition plain_relative (path : bytes) : bool :=
 
 Definition obs_fields (o : value) : option (Z * bytes * bytes * bytes) :=
   match o with
-  | VL [VI st; VB cl; VB cr; VB body; VI _] => Some (st, cl, cr, body)
+  | VL [VI st; VB cl; VB cr; VB body; VI _; VI _] => Some (st, cl, cr, body)
   | _ => None
   end.
 
@@ -56,6 +56,25 @@ Definition chk_C07 (c o : value) : bool :=
       | None, _ => true
       end
   | _ => true
+  end.
+
+(* C07 over a history of requests through one handler whose document root is replaced on the way (family fsm): every
+   answer obeys the statement for the root in force when the request is served - a root that was in force earlier
+   gives no access *)
+Fixpoint chk_C07_each (tree : list value) (rootspec ver : bytes) (reqs obs : list value) : bool :=
+  match reqs, obs with
+  | [], [] => true
+  | VL [VB path; VL hdrs] :: r, o :: os =>
+      chk_C07 (VL [VL tree; VB rootspec; VB path; VL hdrs; VB ver]) o && chk_C07_each tree rootspec ver r os
+  | VL [VB path; VL hdrs; VB newroot] :: r, o :: os =>
+      chk_C07 (VL [VL tree; VB newroot; VB path; VL hdrs; VB ver]) o && chk_C07_each tree newroot ver r os
+  | _, _ => false
+  end.
+Definition chk_C07m (c o : value) : bool :=
+  match c, o with
+  | VL (VL tree :: VB rootspec :: VL reqs :: VB ver :: _), VL obs => chk_C07_each tree rootspec ver reqs obs
+  | VL (VL _ :: VB _ :: VL _ :: VB _ :: _), _ => false
+  | _, _ => true
   end.
 
 (* token up to the first occurrence of c, and what follows it *)
